@@ -323,7 +323,10 @@ class C16(PropBase):
     coq_dirs = ["Base", "C08", "C09", "C10", "C11", "C16"]
     translators = ["c16_fsops.py", "c16_locate.py", "symfile_loop.py", "c10_stream.py"]
     bins = ["c16"]
-    impl_timeout = 600
+    # no wall-clock assumption that can turn into an alarm on a loaded machine: a shard of the thorough tier needs minutes of
+    # CPU; hangs are caught per case by the harness's CPU-time watchdog, not by these limits
+    impl_timeout = 3600
+    model_timeout = 3600
     rule = ("each case: fresh cache/ tmp/ local dirs, a scripted loopback HTTP/1.1 server per URL (status 200/403/404/500/503; "
             "Content-Length flushed in pieces, chunked with scripted chunk boundaries, close-delimited; close without response, FIN or RST "
             "after k body bytes, stall until the client times out; optional write by 'another process' at request time), the real "
@@ -824,7 +827,19 @@ class C16(PropBase):
             add("random", case(mod, servers, pre=pre, locs=locs, env=env, drop=drop))
             if drop != "-":
                 dist["drop"] += 1
-        return cases, dist, False
+        # the runner shards the case list into contiguous ranges: spread the large bodies (5-200 KB: long lines, big
+        # files) evenly over the list, otherwise one shard carries all of them and sets the wall time
+        heavy = sorted((c for c in cases if len(c) > 12000), key=lambda c: (-len(c), c))
+        light = [c for c in cases if len(c) <= 12000]
+        groups = 16
+        buckets = [[] for _ in range(groups)]
+        for i, c in enumerate(heavy):          # largest first, dealt out in snake order
+            r, k = divmod(i, groups)
+            buckets[k if r % 2 == 0 else groups - 1 - k].append(c)
+        out = []
+        for j in range(groups):
+            out += buckets[j] + light[j * len(light) // groups:(j + 1) * len(light) // groups]
+        return out, dist, False
 
     # ------------------------------------------------------------------ canonical forms
     def canon_block(self, c, name, b):
